@@ -11,6 +11,9 @@ List is an ordered sequence of elements.
 type List interface {
 	field
 
+	// base acquires the embedded list implementation (also from a derived structure).
+	base() *list
+
 	/*
 		Init initializes the ego pointer, which allows deriving.
 
